@@ -775,11 +775,31 @@ func backSliceCond(v ssa.Value, visit func(ssa.Value)) {
 			if b, ok := y.Call.Value.(*ssa.Builtin); ok && (b.Name() == "len" || b.Name() == "cap") {
 				walk(y.Call.Args[0], d+1)
 			}
+			// a private predicate: what it returns (inline.go)
+			if cal := y.Call.StaticCallee(); cal != nil && exactHelper(cal) != nil {
+				for _, b := range cal.Blocks {
+					if r, isR := b.Instrs[len(b.Instrs)-1].(*ssa.Return); isR && b != cal.Recover {
+						for _, res := range r.Results {
+							walk(resolveSpill(res, r), d+1)
+						}
+					}
+				}
+			}
 		case *ssa.Extract:
 			walk(y.Tuple, d+1)
+		case *ssa.IndexAddr:
+			walk(y.X, d+1)
+		case *ssa.Index:
+			walk(y.X, d+1)
 		case *ssa.Phi:
 			for _, e := range y.Edges {
 				walk(e, d+1)
+			}
+			// the conditions that select among the edges (a && chain materialised as a phi of constants)
+			for _, p := range y.Block().Preds {
+				if ifi, isIf := p.Instrs[len(p.Instrs)-1].(*ssa.If); isIf {
+					walk(ifi.Cond, d+1)
+				}
 			}
 		}
 	}
